@@ -1,5 +1,6 @@
 import EinoV.Oracle.GraphCase
 import EinoV.Oracle.C02Workflow
+import EinoV.Spec.DagWF
 
 namespace EinoV.Oracle.C02
 open Lean EinoV
@@ -18,6 +19,11 @@ def handle (c : Json) : JE Json := do
   | _ =>
     let g ← J.field c "g"
     let x ← J.str c "input"
-    GraphCase.outcomeJson g [("in", x)]
+    let out ← GraphCase.outcomeJson g [("in", x)]
+    -- does the compiled runner satisfy the hypothesis of the run-level theorems
+    -- (Props/C02.lean `dag_at_most_once`; `dag_wf_check_sound`)?
+    let gd ← GraphCase.parseGraph g
+    let r := Engine.compile GraphCase.defaultStepSlack gd
+    pure (out.setObjVal! "wf" (Json.bool (Engine.DagRun.dagWFb r)))
 
 end EinoV.Oracle.C02
